@@ -14,6 +14,12 @@ impl<T: Clone> BroadcastSender<T> {
     pub fn verif_origin_shift(&self, base: usize) {
         self.sender.verif_queue().verif_origin_shift(base)
     }
+    pub fn verif_preload_retirements(&self, n: usize) {
+        self.sender.verif_queue().verif_preload_retirements(n)
+    }
+    pub fn verif_pending(&self) -> (usize, usize) {
+        self.sender.verif_queue().verif_pending()
+    }
 }
 
 impl<T: Clone> BroadcastFutSender<T> {
@@ -25,6 +31,12 @@ impl<T: Clone> BroadcastFutSender<T> {
     }
     pub fn verif_origin_shift(&self, base: usize) {
         self.sender.verif_queue().verif_origin_shift(base)
+    }
+    pub fn verif_preload_retirements(&self, n: usize) {
+        self.sender.verif_queue().verif_preload_retirements(n)
+    }
+    pub fn verif_pending(&self) -> (usize, usize) {
+        self.sender.verif_queue().verif_pending()
     }
     pub fn verif_parked(&self) -> (usize, usize) {
         self.sender.verif_parked()
